@@ -862,6 +862,48 @@ fn timing(rng: &mut Rng64, script: &mut Vec<UStep>, heavy_running: bool) {
     }
 }
 
+/// A `position` line from the session's theme: the theme position itself, one of its
+/// siblings (same placement, other castling rights / en-passant square), or a position a
+/// few plies on. This is how a game (and its analysis) revisits almost-equal positions.
+fn themed_position_line(rng: &mut Rng64, theme: &Pos) -> (String, Pos) {
+    loop {
+        let base = match rng.below(4) {
+            0 => theme.clone(),
+            1 | 2 => {
+                let sibs = corpus::siblings(theme);
+                if sibs.is_empty() {
+                    theme.clone()
+                } else {
+                    rng.pick(&sibs).clone()
+                }
+            }
+            _ => {
+                let k = 1 + rng.below(2) as u32;
+                let q = corpus::random_play(rng, theme, k).0;
+                let sibs = corpus::siblings(&q);
+                if !sibs.is_empty() && rng.chance(500) {
+                    rng.pick(&sibs).clone()
+                } else {
+                    q
+                }
+            }
+        };
+        let plies = *rng.pick(&[0u32, 0, 0, 1, 2]);
+        let (end, ms) = corpus::random_play(rng, &base, plies);
+        let mut line = format!("position fen {}", base.fen());
+        if !ms.is_empty() {
+            line.push_str(" moves");
+            for m in &ms {
+                line.push(' ');
+                line.push_str(&m.uci());
+            }
+        }
+        if !end.legal_moves().is_empty() {
+            return (line, end);
+        }
+    }
+}
+
 fn position_line(rng: &mut Rng64, want_moves: bool) -> (String, Pos) {
     loop {
         let (mut line, start) = match rng.below(10) {
@@ -926,10 +968,18 @@ pub fn generate(ctx: &Ctx, prop: &str, rng: &mut Rng64, thorough: bool, index: u
         post_cancel_bound: ctx.post_cancel_bound,
         node_cap: 4_000_000,
     };
-    let _ = thorough;
     let mut s: Vec<UStep> = Vec::new();
     let mut heavy_budget = 1; // at most one search per session that has to be stopped from outside
+    // four sessions in ten stay with one family of positions
+    let theme: Option<Pos> = if rng.chance(400) {
+        let base = Pos::from_fen(rng.pick(corpus::RIGHTS)).unwrap();
+        Some(if rng.chance(300) { corpus::random_play(rng, &base, 2).0 } else { base })
+    } else {
+        None
+    };
+    let theme_ref = theme.clone();
     let session = |rng: &mut Rng64, s: &mut Vec<UStep>, heavy_budget: &mut i32, ncmd: usize, allow_terminal: bool| {
+        let theme = theme_ref.clone();
         let mut pos_known = true;
         let mut search_may_run = false;
         let mut heavy_running = false;
@@ -939,6 +989,8 @@ pub fn generate(ctx: &Ctx, prop: &str, rng: &mut Rng64, thorough: bool, index: u
                     let (l, _) = if allow_terminal && rng.chance(250) {
                         let p = if rng.chance(500) { Pos::from_fen(rng.pick(corpus::TERMINAL)).unwrap() } else { let m = rng.chance(500); corpus::tb_terminal(rng, m) };
                         (format!("position fen {}", p.fen()), p)
+                    } else if let (Some(t), true) = (&theme, rng.chance(800)) {
+                        themed_position_line(rng, t)
                     } else {
                         position_line(rng, true)
                     };
@@ -992,7 +1044,7 @@ pub fn generate(ctx: &Ctx, prop: &str, rng: &mut Rng64, thorough: bool, index: u
             if rng.chance(400) {
                 s.push(UStep::Line("isready".to_string()));
             }
-            let n = 3 + rng.below(12) as usize;
+            let n = 3 + rng.below(if thorough { 20 } else { 12 }) as usize;
             if rng.chance(500) {
                 heavy_budget = 0;
             }
@@ -1010,7 +1062,7 @@ pub fn generate(ctx: &Ctx, prop: &str, rng: &mut Rng64, thorough: bool, index: u
             if rng.chance(500) {
                 s.push(UStep::Line("uci".to_string()));
             }
-            let n = 2 + rng.below(8) as usize;
+            let n = 2 + rng.below(if thorough { 14 } else { 8 }) as usize;
             if rng.chance(600) {
                 heavy_budget = 0;
             }
@@ -1058,7 +1110,7 @@ pub fn generate(ctx: &Ctx, prop: &str, rng: &mut Rng64, thorough: bool, index: u
             if rng.chance(500) {
                 s.push(UStep::Line("uci".to_string()));
             }
-            let n = 1 + rng.below(9) as usize;
+            let n = 1 + rng.below(if thorough { 14 } else { 9 }) as usize;
             if rng.chance(650) {
                 heavy_budget = 0;
             }
@@ -1097,6 +1149,7 @@ pub fn generate(ctx: &Ctx, prop: &str, rng: &mut Rng64, thorough: bool, index: u
                 // prefer positions related to game 1 (same placements are where stale memory
                 // bites) and book positions (answered without a search)
                 let pl = match rng.below(10) {
+                    0..=1 if theme.is_some() => themed_position_line(rng, theme.as_ref().unwrap()).0,
                     0..=4 if !earlier.is_empty() => rng.pick(&earlier).clone(),
                     5..=6 => "position startpos".to_string(),
                     7 => {
